@@ -504,7 +504,7 @@ def _icv_diagnosis(data, suite, sk_a):
     return None
 
 
-def sk_seal(h, payloads, suite, sk_a, sk_e, iv, pad_extra=0, pad_fill=None):
+def sk_seal(h, payloads, suite, sk_a, sk_e, iv, pad_extra=0, pad_fill=None, outer=None):
     """Build a protected message (reference encoder).  pad_fill: None (zeros) or a callable n -> n octets of Padding ("Padding MAY contain
     any value chosen by the sender", RFC 7296 3.14)."""
     inner = enc_chain(payloads)
@@ -516,6 +516,15 @@ def sk_seal(h, payloads, suite, sk_a, sk_e, iv, pad_extra=0, pad_fill=None):
     sk_body = iv + ct + b'\0' * suite.icv
     total = 28 + 4 + len(sk_body)
     flags = (8 if h['I'] else 0) | (32 if h['R'] else 0)
+    if outer:
+        # cleartext payloads in front of the Encrypted payload (legal: RFC 7296 3.14 only wants SK to be the last payload); the checksum
+        # covers them like the rest of the message
+        pre = enc_chain(list(outer), last_next=P_SK)
+        total += len(pre)
+        msg = bytearray(enc_header(h['spi_i'], h['spi_r'], outer[0]['type'], h['exch'], h.get('flags', flags), h['id'], total) + pre +
+                        struct.pack('>BBH', first, 0, 4 + len(sk_body)) + sk_body)
+        msg[-suite.icv:] = integ(suite.integ, sk_a, bytes(msg[:-suite.icv]))
+        return bytes(msg)
     msg = bytearray(enc_header(h['spi_i'], h['spi_r'], P_SK, h['exch'], h.get('flags', flags), h['id'], total) +
                     struct.pack('>BBH', first, 0, 4 + len(sk_body)) + sk_body)
     msg[-suite.icv:] = integ(suite.integ, sk_a, bytes(msg[:-suite.icv]))
